@@ -51,3 +51,6 @@ func VerifEncodeFeatureList(info FeatureListInfo) []byte { return info.encode() 
 func VerifReadFeatureList(data []byte) (FeatureListInfo, error) {
 	return readFeatureList(parser.New(bytes.NewReader(data)), 0)
 }
+
+// VerifEncodeSubtable exposes the encoder of one subtable.
+func VerifEncodeSubtable(st Subtable) []byte { return st.encode() }
